@@ -90,3 +90,43 @@ PROPS["C06"] = _api("C06", ["C06_rejected_unchanged", "C06_populate_validates_fi
 PROPS["C17"] = _api("C17", ["C17_same_untouched", "C17_idempotent", "C17_differs_replaces", "C17_spelling", "populateLoop_all_match"],
                     ["'every spelling': theorem C17_spelling is under hypothesis spellingOK on the relation measured from the real Proxy.Differs; the model driver evaluates spellingOK on the measured table in every run (a false value is reported as a broken obligation)",
                      "live connections surviving a matching populate / dropped by a replacing one: registry-level here (the proxy object is untouched / stopped); socket level belongs to C03"])
+
+
+_E3_ASSUME = [
+    "Go channel/select/WaitGroup semantics and testing/synctest's virtual clock; the network of goroutines of a link is confluent except for selects with two ready cases, which the model flags and the engine then stops comparing (episodes stopped are counted)",
+    "toxicity is 0 or 1 and random draws are constant in E3 (the order in which concurrently restarted stubs draw is not deterministic)",
+    "API calls that cannot complete at once (blocked receiver, pending timer) are skipped in E3: they are outside C02's proviso, and a goroutine waiting for the collection mutex is not durably blocked for synctest",
+    "real TCP sockets, io.Copy's 32 KiB buffer and half-close behaviour are environment here (engine E6)",
+]
+
+
+def _link(prop, theorems, mode, scope, extra=()):
+    args = ["-props", prop]
+    if mode:
+        args += ["-mode", mode]
+    return {
+        "lean_modules": ["Toxi.Proofs." + prop],
+        "theorems": theorems,
+        "engines": [{"engine": "e3", "gotest": True, "args": args, "tag": prop}],
+        "needs_gotest": True,
+        "model_scope": scope,
+        "assumptions": _E3_ASSUME + list(extra),
+    }
+
+
+PROPS["C01"] = _link("C01", ["Toxi.Link.C01_stage_conserves", "Toxi.Link.C01_inactive_conserves", "Toxi.Link.C01_new_link",
+                             "Toxi.Toxic.step_conserves", "Toxi.Toxic.slicerSend_ok", "Toxi.Toxic.bwLoop_ok", "Toxi.Stream.C18_fifo"],
+                     "preserving",
+                     "link.go (NewToxicLink, Start, read, write), toxics/*.go of the data-preserving toxics, stream/io_chan.go; per-connection independence is exercised with up to 3 concurrent links")
+PROPS["C02"] = _link("C02", ["Toxi.Link.C02_interrupt_keeps", "Toxi.Link.C02_restart_empty", "Toxi.Link.C02_rmLoop_takes_oldest",
+                             "Toxi.Link.C02_splice_when_empty", "Toxi.Link.C02_tmp_only_giveup", "Toxi.Toxic.step_conserves"],
+                     "",
+                     "link.go AddToxic / UpdateToxic / RemoveToxic (every blocking point, incl. the early returns and the 5 s give-up), toxic_collection.go chainAdd/Update/Remove, ResetToxics, StartLink, RemoveLink")
+PROPS["C04"] = _link("C04", ["Toxi.Link.C04_new_link_aligned", "Toxi.Link.C04_add_chain", "Toxi.Link.C04_update_chain",
+                             "Toxi.Link.C04_remove_chain", "Toxi.Link.C04_frame_links", "Toxi.Link.C04_update_restarts_one"],
+                     "",
+                     "toxic_collection.go (chain, Index renumbering, findToxicByName), link.go stubs vs chain alignment")
+PROPS["C14"]["engines"] = PROPS["C14"]["engines"] + [{"engine": "e3", "gotest": True, "args": ["-props", "C14"], "tag": "C14link"}]
+PROPS["C14"]["model_scope"] += "; toxic_collection.go UpdateToxicJson -> chainUpdateToxic -> link.UpdateToxic (restart with a fresh draw) via the link model (E3)"
+PROPS["C11"]["engines"] = PROPS["C11"]["engines"] + [{"engine": "e3", "gotest": True, "args": ["-props", "C11", "-mode", "all"], "tag": "C11link"}]
+PROPS["C10"]["engines"] = PROPS["C10"]["engines"] + [{"engine": "e3", "gotest": True, "args": ["-props", "C10", "-mode", "all"], "tag": "C10link"}]
